@@ -74,7 +74,7 @@ func runC16(r *Run) {
 	r.rule("C16.R3", "apply-then-clear: dogfood EndBlock, under the epoch-end marker, reads each pending list, applies each element, then deletes the list unconditionally; the marker is cleared (deferred)", 5)
 	r.rule("C16.R4", "schedule pairing: every live scheduling site writes queue + reverse lookup (+ hold) with the same key and epoch", 2)
 	r.rule("C16.R5", "completion epoch = CurrentEpoch(of the dogfood identifier) + EpochsUntilUnbonded", 1)
-	r.rule("C16.R6", "hold decision: the maturity epoch is the opt-out finish epoch iff the operator is removing its key, else the default completion epoch; early exits (no hold) happen exactly for 'no key set' and 'neither current nor previous key in the validator set'", 3)
+	r.rule("C16.R6", "hold decision: the maturity epoch is the opt-out finish epoch iff the operator is removing its key, else the default completion epoch; early exits (no hold) happen exactly for 'no key set', 'neither current nor previous key in the validator set' and 'opt-out finished in this block'; an absent finish epoch never becomes a queue key", 4)
 
 	dog := map[string]bool{"dogfood": true}
 	codecAgreementRule(r, "C16.R1", dog)
@@ -534,7 +534,7 @@ func runC16(r *Run) {
 		}
 		// early exits
 		var bad []string
-		nExit := 0
+		nExit, nFinishing := 0, 0
 		ast.Inspect(v.Decl.Body, func(n ast.Node) bool {
 			rs, ok := n.(*ast.ReturnStmt)
 			if !ok || len(rs.Results) != 1 || !isNilIdent(v.Info, rs.Results[0]) {
@@ -549,13 +549,39 @@ func runC16(r *Run) {
 				if id, isId := stripParens(f.Atom).(*ast.Ident); isId && !f.Truth && strings.Contains(strings.ToLower(id.Name), "validator") {
 					okExit = true
 				}
+				// the opt-out is being finished in this very block: removing, and its finish epoch is gone (< 0)
+				if c, isC := factCmp(f); isC && c.Op == "<" && exprString(c.R) == "0" && resolvesToCallV(v, c.L, "GetOperatorOptOutFinishEpoch") &&
+					v.GuardedBy(rs, byName("IsOperatorRemovingKeyFromChainID"), true) != nil {
+					okExit = true
+					nFinishing++
+				}
 			}
 			if !okExit {
 				bad = append(bad, v.pos(rs))
 			}
 			return true
 		})
-		r.check(len(bad) == 0 && nExit == 2, "C16.R6", "early-exits", v.pos(v.Decl), "no hold exactly for 'no key set' and 'not in the validator set'", fmt.Sprintf("%d nil-returning exits, unexplained at %v", nExit, bad))
+		r.check(len(bad) == 0 && nExit-nFinishing == 2, "C16.R6", "early-exits", v.pos(v.Decl), "no hold exactly for 'no key set', 'not in the validator set' and 'the opt-out is finished in this block'", fmt.Sprintf("%d nil-returning exits, unexplained at %v", nExit, bad))
+		// a finish epoch of -1 ("none") never reaches the maturity queue: its key constructor fails on a negative
+		// epoch and the store write panics, which rejects the undelegation (C03: always accepted)
+		okNeg := false
+		for _, c := range v.CallsNamed("AppendUndelegationToMature") {
+			if len(c.Args) != 3 {
+				continue
+			}
+			epochFromOptOut := false
+			for _, d := range v.defsOf(v.objOf(c.Args[1])) {
+				if dc, isC := stripParens(d).(*ast.CallExpr); isC && v.calleeName(dc) == "GetOperatorOptOutFinishEpoch" {
+					epochFromOptOut = true
+				}
+			}
+			if !epochFromOptOut {
+				okNeg = true
+				continue
+			}
+			okNeg = nFinishing >= 1
+		}
+		r.check(okNeg, "C16.R6", "finish-epoch-present", v.pos(v.Decl), "an absent opt-out finish epoch (-1) is handled before the epoch is used as a queue key", "AfterUndelegationStarted hands GetOperatorOptOutFinishEpoch's result to the maturity queue without testing it for 'absent' (< 0): in the block that finishes the opt-out the key constructor fails and the undelegation is rejected with a panic")
 		// isValidator derives from GetExocoreValidator on current and previous key
 		nVal := len(v.CallsNamed("GetExocoreValidator"))
 		prev := len(v.CallsNamed("GetOperatorPrevConsKeyForChainID"))
